@@ -217,6 +217,8 @@ func mapDynamoToTypesPutItemInput(input *dynamodb.PutItemInput) *types.PutItemIn
 		ReturnItemCollectionMetrics: toString(string(input.ReturnItemCollectionMetrics)),
 		ReturnValues:                toString(string(input.ReturnValues)),
 		TableName:                   input.TableName,
+
+		ReturnValuesOnConditionCheckFailure: toString(string(input.ReturnValuesOnConditionCheckFailure)),
 	}
 }
 
@@ -333,6 +335,8 @@ func mapDynamoToTypesDeleteItemInput(input *dynamodb.DeleteItemInput) *types.Del
 		ReturnItemCollectionMetrics: toString(string(input.ReturnItemCollectionMetrics)),
 		ReturnValues:                toString(string(input.ReturnValues)),
 		TableName:                   input.TableName,
+
+		ReturnValuesOnConditionCheckFailure: toString(string(input.ReturnValuesOnConditionCheckFailure)),
 	}
 }
 
